@@ -283,6 +283,7 @@ class Interp:
                     raise Unspecified("fills body captured no fill")
         kwargs = {kk: self.resolve(e, env, "kwarg", in_fill) for kk, e in opts.get("kwargs", {}).items()}
         inst = Inst(len(self.instances), cname, fills, owner)
+        inst.only = bool(opts.get("only"))
         self.instances.append(inst)
         if cname not in self.classes_in_order:
             self.classes_in_order.append(cname)
@@ -378,7 +379,7 @@ class Interp:
             if c.default_alias:
                 aliases[c.default_alias] = render_default
             alias_fr = ("alias", "A", aliases)
-            if self.mode == ISOLATED:
+            if self.mode == ISOLATED or getattr(inst, "only", False):
                 # lexical: environment at the component tag + enclosing loops between tag and fill + aliases
                 loops = tuple(fr for fr in c.between if fr[0] == "for")
                 if any(fr[0] == "with" for fr in c.between):
